@@ -82,9 +82,43 @@ def null_guard(f):
             seen_use |= (refs(st, set()) - set(checked))
     return {"params": params, "checked_before_use": checked}
 
+import hashlib
+SKIP_KEYS = {"id", "loc", "range", "previousDecl", "isUsed", "isReferenced", "mangledName", "isImplicit", "parentDeclContextId", "valueCategory"}
+def shape(n):
+    """location-free, id-free rendering of an AST subtree: kinds, operators, names, literals, types"""
+    if isinstance(n, dict):
+        items = []
+        for k in sorted(n.keys()):
+            if k in SKIP_KEYS: continue
+            v = n[k]
+            if k == "referencedDecl":
+                items.append("ref=%s" % v.get("name"))
+            elif k == "type":
+                items.append("type=%s" % (v.get("qualType") if isinstance(v, dict) else v))
+            elif k == "inner":
+                items.append("[" + ",".join(shape(c) for c in v if not (isinstance(c, dict) and c.get("kind") in ("FullComment", "ParagraphComment", "TextComment"))) + "]")
+            elif isinstance(v, (dict, list)):
+                items.append("%s=%s" % (k, shape(v)))
+            elif isinstance(v, str) and re.match(r"^0x[0-9a-f]+$", v):
+                continue                      # AST node addresses (referencedMemberDecl, ...)
+            else:
+                items.append("%s=%s" % (k, v))
+        return "{" + ";".join(items) + "}"
+    if isinstance(n, list):
+        return "[" + ",".join(shape(c) for c in n) + "]"
+    return str(n)
+
+def text_shape(path):
+    """comment- and whitespace-insensitive hash of a source file (Arduino port, example tools)"""
+    t = open(path, errors="replace").read()
+    t = re.sub(r"/\*.*?\*/", " ", t, flags=re.S)
+    t = re.sub(r"//[^\n]*", " ", t)
+    t = re.sub(r"\s+", " ", t)
+    return hashlib.sha256(t.encode()).hexdigest()[:16]
+
 def collect(repo):
     base = ["-std=c99", "-I" + os.path.join(repo, "include"), "-I" + os.path.join(repo, "src"), "-msse2", "-mavx2"]
-    facts = {"alloc": [], "cleanse": [], "globals": [], "asm": [], "guards": {}, "structs": {}, "cleanup_seq": {}}
+    facts = {"alloc": [], "cleanse": [], "globals": [], "asm": [], "guards": {}, "structs": {}, "cleanup_seq": {}, "shapes": {}, "text_shapes": {}}
     for fn in SRC:
         path = os.path.join(repo, "src", fn)
         if not os.path.exists(path):
@@ -93,6 +127,11 @@ def collect(repo):
         for name, f in tu.funcs.items():
             b = body_of(f)
             if b is None: continue
+            if name.startswith("skinny") or name.startswith("mantis") or name.startswith("_skinny") or name.startswith("_mantis"):
+                hsh = hashlib.sha256(shape(f).encode()).hexdigest()[:16]
+                key = name + "@" + fn if "-vec" in fn else name      # the vector files carry their own static copies
+                cur = facts["shapes"].get(key, "")
+                if hsh not in cur.split("+"): facts["shapes"][key] = "+".join(sorted([x for x in cur.split("+") if x] + [hsh]))
             loc_file = f.get("loc", {}).get("file") or f.get("loc", {}).get("includedFrom", {}).get("file")
             def visit(n, fname=name):
                 if n.get("kind") == "CallExpr":
@@ -142,6 +181,10 @@ def collect(repo):
                     facts["globals"].append({"file": fn, "name": fname + "::" + n["name"], "type": q, "const": bool(re.search(r"\bconst\b", q))})
             if name.startswith("skinny") or name.startswith("mantis") or name.startswith("_skinny"):
                 walk(b, vis2)
+    import glob
+    for pat in ("arduino/libraries/Skinny/*.cpp", "arduino/libraries/Skinny/*.h", "arduino/libraries/Skinny/utility/*.h", "examples/*.c", "examples/*.h"):
+        for pth in sorted(glob.glob(os.path.join(repo, pat))):
+            facts["text_shapes"][os.path.relpath(pth, repo)] = text_shape(pth)
     # de-duplicate globals coming from headers included in several TUs
     seen = set(); gl = []
     for g in facts["globals"]:
